@@ -6,7 +6,7 @@
 		__CPROVER_assume(g_free_calls < ((size_t) 1 << 40) && g_alloc_ok < ((size_t) 1 << 40) && g_ready_calls < ((size_t) 1 << 40)); \
 		g_ready_last = NULL; g_ci = nondet_size_t(); g_which = nondet_int(); \
 		g_wpoll0 = nondet_bool(); g_stable0 = nondet_bool(); g_held0 = nondet_size_t(); \
-		g_copyin_rv = nondet_int(); g_copyin_val = nondet_int(); \
+		g_msg_freed = nondet_size_t(); g_msg_freed_at_j = nondet_ptr(); __CPROVER_assume(g_msg_freed < ((size_t) 1 << 40)); \
 		VP_HAVOC_PROTO(); VP_HAVOC_SYNC();    \
 		/* "last seen" pointer records start as NULL (only ever compared); queue heads are made real by \
 		 * VP_AIOQS_PRE; an unknown tail is NULL (see VP_AIOQ_OK) */ \
